@@ -149,10 +149,13 @@ def gen(tier, rng):
     for x in range(256):
         out.append(f"row -130 130 rot u8 {x}")
         out.append(f"row 0 255 bit u8 {x}")
+        out.append(f"row 0 7 tbit u8 {x}")       # template<Pos> overloads: every word x every Pos
     for t in ("i8", "u8"):
         lo, hi = lim(t)
         rows(out, lo, hi, f"bswap {t}")
         rows(out, lo, hi, f"hton {t}")
+        if t == "i8":
+            rows(out, lo, hi, "hton c8")          # the `char` overloads
         rows(out, lo, hi, f"abs {t}")
         rows(out, lo, hi, f"ilog2 {t}")
         out.append(f"row 0 31 ipow2 {t}")
@@ -232,6 +235,7 @@ def gen(tier, rng):
         if i % 3 == 0 or not quick:
             out.append(f"row -130 130 rot u16 {x}")
         out.append(f"row 0 40 bit u16 {x}")
+        out.append(f"row 0 15 tbit u16 {x}")
         for p in (255, 256, 32768, 65535):
             out.append(f"bit u16 {x} {p}")
 
@@ -257,6 +261,10 @@ def gen(tier, rng):
                 out.append(f"rot {t} {x} {s}")
         for _ in range(nrand):
             out.append(f"rot {t} {rnd(rng, t)} {rng.randint(-2**31, 2**31 - 1)}")
+        # template<Pos> overloads: every Pos x boundary words (bit set / bit clear at every position occurs: single
+        # bits, all-ones-but-one, alternating patterns) and random words
+        for x in (B[::3] if quick else B) + [0, hi, hi // 3, hi - hi // 3] + [rnd(rng, t) for _ in range(16 if quick else 2000)]:
+            out.append(f"row 0 {w - 1} tbit {t} {x}")
     for t in ("i32", "i64", "ill"):
         for x in boundary(t) + [rnd(rng, t) for _ in range(nrand)]:
             out.append(f"bswap {t} {x}")
@@ -295,6 +303,20 @@ def gen(tier, rng):
                 if lo <= e <= hi and ipow_no_ub(t, b, e):
                     out.append(f"ipow {t} {b} {e}")
 
+    # ipow<Base>(exponent): Base == 2 is a shift (exponent must be a valid shift count of the promoted type), every
+    # other Base forwards to ipow(Base, exponent)
+    for t in ("i8", "u8", "i16", "u16", "i32", "u32", "i64", "u64", "ill", "ull"):
+        lo, hi = lim(t)
+        w = TYPES[ALIAS.get(t, t)][0]
+        for b in (0, 1, 2, 3, 10, -1, -2):
+            if not lo <= b <= hi:
+                continue
+            for e in list(range(0, 70)) + [100, 127, -1, -5, lo]:
+                if not lo <= e <= hi:
+                    continue
+                if (0 <= e < max(32, w)) if b == 2 else ipow_no_ub(t, b, e):
+                    out.append(f"ipowb {t} {b} {e}")
+
     # ------------------------------------------------------------------ all 64 type pairs
     for ta in FIXED:
         Va = clip(ta, LIMITS) + [rnd(rng, ta) for _ in range(4 if quick else 40)]
@@ -312,6 +334,27 @@ def gen(tier, rng):
                  (lim(ta)[0], -1), (lim(ta)[1], 2), (lim(ta)[1] // 2 + 1, 2), (lim(ta)[1] // 3, 3)]
             G += [(rnd(rng, ta), rnd(rng, tb)) for _ in range(10 if quick else 300)]
             G += [(rng.randint(1, 200) * g, rng.randint(1, 200) * g) for g in (1, 2, 3, 7, 64, 1000) for _ in range(2)]
+            for (m, n) in G:
+                if lim(ta)[0] <= m <= lim(ta)[1] and lim(tb)[0] <= n <= lim(tb)[1]:
+                    out.append(f"gcd {ta} {tb} {m} {n}")
+                    out.append(f"lcm {ta} {tb} {m} {n}")
+    # ------------------------------------------------------------------ long long / unsigned long long in the two-type
+    # functions (distinct types from long / unsigned long with the same representation: make_unsigned_t, common_type_t)
+    LL = ["ill", "ull"]
+    LLV = sorted({v for t in ("i32", "u32", "i64", "u64") for v in lim(t)} | {0, 1, -1})
+    for ta in FIXED + LL:
+        for tb in FIXED + LL:
+            if ta not in LL and tb not in LL:
+                continue
+            Va = clip(ta, LLV if quick else LIMITS) + [rnd(rng, ta) for _ in range(2 if quick else 20)]
+            Vb = clip(tb, LLV if quick else LIMITS) + [rnd(rng, tb) for _ in range(2 if quick else 20)]
+            for a in Va:
+                out.append(f"conv {tb} {ta} {a}")
+                for b in Vb:
+                    out.append(f"cmp {ta} {tb} {a} {b}")
+            G = [(0, 0), (4, 6), (-4, 6), (4, -6), (-4, -6), (0, -4), (196608, 131072), (-2147483648, 65536), (4294967296, 6),
+                 (lim(ta)[0], lim(tb)[0]), (lim(ta)[1], lim(tb)[1]), (lim(ta)[0], 1), (1, lim(tb)[0]), (lim(ta)[0], lim(tb)[1])]
+            G += [(rnd(rng, ta), rnd(rng, tb)) for _ in range(2 if quick else 100)]
             for (m, n) in G:
                 if lim(ta)[0] <= m <= lim(ta)[1] and lim(tb)[0] <= n <= lim(tb)[1]:
                     out.append(f"gcd {ta} {tb} {m} {n}")
